@@ -101,7 +101,16 @@ def run_property(prop, tier, repo=None, quiet=False):
     try:
         repo = repo or Repo.load()
         ctx = Ctx(prop, repo, tier)
-        mod.run(ctx)
+        from . import rules
+        try:
+            mod.run(ctx)
+        finally:
+            # also when the property's own obligations could not all be bound: a positive finding stays reportable
+            ctx.clause("for every history of calls: no result computed in an earlier call is handed out again after the data it was computed from changed")
+            try:
+                rules.no_memo(ctx)
+            except AnalysisError:
+                pass
         if not ctx.results:
             raise AnalysisError("no obligation bound to any construct")
         return 0, ctx, []
